@@ -1,8 +1,28 @@
 //! Correspondence harness: runs konst (built from /repo's working tree) and the real
 //! std on generated cases, one canonical line per case.
-//!   kv_harness <family-group> <quick|thorough> <seed>
+//!   kv_harness <group> <quick|thorough> <seed>
+//! A group is the lower-case property id; a module may look at a 5th argument for sub-groups.
 mod common;
+mod c01;
+mod c02;
+mod c03;
 mod c04;
+mod c05;
+mod c06;
+mod c07;
+mod c08;
+mod c09;
+mod c10;
+mod c11;
+mod c12;
+mod c13;
+mod c14;
+mod c15;
+mod c16;
+mod c17;
+mod c18;
+mod c19;
+mod c20;
 
 fn main() {
     let a: Vec<String> = std::env::args().collect();
@@ -14,7 +34,26 @@ fn main() {
     common::quiet_panics();
     let mut out = common::Out::new();
     match a[1].as_str() {
+        "c01" => c01::run(&cfg, &mut out),
+        "c02" => c02::run(&cfg, &mut out),
+        "c03" => c03::run(&cfg, &mut out),
         "c04" => c04::run(&cfg, &mut out),
+        "c05" => c05::run(&cfg, &mut out),
+        "c06" => c06::run(&cfg, &mut out),
+        "c07" => c07::run(&cfg, &mut out),
+        "c08" => c08::run(&cfg, &mut out),
+        "c09" => c09::run(&cfg, &mut out),
+        "c10" => c10::run(&cfg, &mut out),
+        "c11" => c11::run(&cfg, &mut out),
+        "c12" => c12::run(&cfg, &mut out),
+        "c13" => c13::run(&cfg, &mut out),
+        "c14" => c14::run(&cfg, &mut out),
+        "c15" => c15::run(&cfg, &mut out),
+        "c16" => c16::run(&cfg, &mut out),
+        "c17" => c17::run(&cfg, &mut out),
+        "c18" => c18::run(&cfg, &mut out),
+        "c19" => c19::run(&cfg, &mut out),
+        "c20" => c20::run(&cfg, &mut out),
         g => {
             eprintln!("unknown group {}", g);
             std::process::exit(2);
